@@ -54,9 +54,57 @@ def reqid_stage(ctx, stats):
         raise C.BuildError("c09 reqid produced no cases")
 
 
+def table_stage(ctx, stats):
+    """internal/utils/sync_stuff.go SyncIntObjectChan / SyncIntReflectTypes against Client/Table.v: random sequential
+    operation sequences replayed through the extracted tab_apply / set_apply + lookup / memz; concurrent runs with a
+    per-key linearizability check (computed by the harness)."""
+    hb = C.build_harness("root", pkg="./cmd/c09")
+    C.build_model("C09")
+    cases = ctx.work + "/table_cases.txt"
+    rc, out = C.sh([hb, "table", ctx.tier, cases], env=ctx.env(), timeout=900, cwd=ctx.work)
+    if rc != 0 or not os.path.exists(cases):
+        raise C.BuildError("c09 table failed (rc=%s): %s" % (rc, out[-1500:]))
+    mo = ctx.work + "/table_model.txt"
+    with open(cases, "rb") as fin, open(mo, "wb") as fout:
+        p = subprocess.run(["%s/model_C09" % C.BIN, "table"], stdin=fin, stdout=fout, stderr=subprocess.PIPE, timeout=900)
+    if p.returncode != 0:
+        raise C.BuildError("model driver C09 table failed: " + p.stderr.decode()[-1500:])
+    model = {(f[1], f[2]): f[3] for f in C.read_tsv(mo) if f and f[0] == "Q" and len(f) >= 4}
+    seqs = {}
+    n = nl = 0
+    for f in C.read_tsv(cases):
+        if f[0] == "Q":
+            _, seq, idx, tab, op, key, arg, res = f[:8]
+            n += 1
+            stats["table_%s_%s" % ("response" if tab == "r" else "hints", op)] += 1
+            seqs.setdefault(seq, []).append("%s %s %s %s" % (tab, op, key, arg))
+            want = model.get((seq, idx))
+            got = res
+            if tab == "h" and op == "get" and not res.startswith("panic"):
+                got = "none" if res == "none" else "some"      # the model keeps the hint table's keys only
+            if got != want:
+                what = "panics" if res.startswith("panic") else "answers %s" % res
+                C.violation(ctx, "table:%s:%s:%s" % ("response" if tab == "r" else "hints", op, "panic" if res.startswith("panic") else "result"),
+                            "%s table: %s(%s) %s after the operations %s; the table of Client/Table.v (a finite map: Add overwrites, "
+                            "Delete removes) answers %s" % ("response" if tab == "r" else "hint", op, key, what, "; ".join(seqs[seq][-12:-1]), want),
+                            {"kind": "table", "sequence": seqs[seq], "expected": want, "got": res,
+                             "how": "harness/root/cmd/c09 table: the operations on a fresh utils.SyncIntObjectChan (r) / SyncIntReflectTypes (h)"})
+        elif f[0] == "L":
+            nl += 1
+            if f[3] != "ok":
+                C.violation(ctx, "table:not-linearizable", "the response table used from several goroutines at once gave answers for key %s that no "
+                            "order of the calls explains (register semantics: Add sets, Delete clears, Get / Has read): %s" % (f[2], f[4][:600]),
+                            {"kind": "table-concurrent", "key": f[2], "history": f[4], "expected": "a linearizable history", "got": "none found"})
+    stats["table_operations"] = n
+    stats["table_concurrent_key_histories"] = nl
+    if n == 0 or nl == 0:
+        raise C.BuildError("c09 table produced no cases")
+
+
 def run(ctx):
     pr, stats, validated, dis, distinct, samples, exh = CC.run_prop(ctx, "C09", n_quick=400, n_thorough=4000)
     reqid_stage(ctx, stats)
+    table_stage(ctx, stats)
     # second batch (cmd/c11, Client/Live.v): requests written more than once - rejected by bad_server_salt and re-sent under a
     # new msg id - and requests answered on a later connection; the answer to the LATEST id must reach the caller, typed
     n = 100 if ctx.tier == "quick" else 2000
